@@ -56,6 +56,58 @@ def extract_all(chk, fb, rule_id):
     return body, tab, meta
 
 
+def operand_pairs(chk, fb, RID):
+    """(value, derivative) pairs fed to the binary rules are (operand, recursive derivative of that operand)."""
+    inner = fb.find_bodies(lambda b: b["kind"] == "Fn" and b["path"].endswith("partial::partial_derivative_inner"))
+    chk.rule(RID, "inner derivative: every operand enters the rules as (operand, partial_deepex(var_idx, operand, mode)) - no shortcut around the recursive differentiation")
+    if len(inner) == 1:
+        class PO(Policy):
+            max_depth = 5
+            loop_mode = "widen"
+
+            def inline(self, fn, args, interp, path):
+                return fn["path"].startswith("expression::partial::") and fn.get("name") not in (
+                    "partial_deepex", "partial_derivative_inner", "partial_derivative_outer", "partial_derisval", "partial_deri_per_operand", "make_partial_derivative_ops")
+        npair = 0
+        bad8 = []
+        ib0 = inner[0]
+        pnames = {}
+        for i in range(1, ib0["arg_count"] + 1):
+            ty = ib0["locals"][i]["ty"]
+            if ty == "usize":
+                pnames["idx"] = ib0["locals"][i].get("name")
+            if ty.endswith("partial::MissingOpMode"):
+                pnames["mode"] = ib0["locals"][i].get("name")
+        for bb_ in [ib0] + [fb.bodies[c] for c in fb.closures_of(ib0["path"])]:
+            args_ = [Sym("env")] + [Sym("node%d" % i) for i in range(1, bb_["arg_count"])] if bb_["kind"] == "Closure" else [Sym("p_%s" % (bb_["locals"][i].get("name") or i)) for i in range(1, bb_["arg_count"] + 1)]
+            for p in Interp(fb, PO()).run(bb_, args_):
+                for e in p.events:
+                    if e[0] != "aggregate" or not (isinstance(e[1], Variant) and e[1].adt.endswith("partial::ValueDerivative")):
+                        continue
+                    if not e[3].startswith(ib0["path"]):
+                        continue       # aggregates built inside rule functions are R05.2's business
+                    v, d = e[1].fields.get("val"), e[1].fields.get("der")
+                    from analysis import rel as _rel
+                    dv = _rel.canon(d)
+                    npair += 1
+                    good = isinstance(dv, App) and dv.fn == "ok" and isinstance(dv.args[0], App) and dv.args[0].fn == "expression::partial::partial_deepex" and len(dv.args[0].args) == 3
+                    if good:
+                        a0, a1, a2 = [_rel.canon(x) for x in dv.args[0].args]
+                        strip_box = lambda z: re.sub(r"^\.pointer\((.*)\)$|^\*", lambda m: m.group(1) or "", _rel.cstr(z))
+                        good = _rel.cstr(a1) == _rel.cstr(v) and re.search(r"(^|[:(_])%s(\(env\))?$" % re.escape(pnames.get("idx") or "?"), _rel.cstr(a0)) is not None \
+                            and re.search(r"(^|[:(_])%s(\(env\))?$" % re.escape(pnames.get("mode") or "?"), _rel.cstr(a2)) is not None
+                    if not good:
+                        bad8.append((show(v)[:80], show(d)[:120], loc(e[2])))
+        if bad8:
+            v_, d_, l_ = bad8[0]
+            chk.violation(RID, "operand-derivative", "an operand of the inner derivative is paired with %s instead of the recursive derivative of that operand (%s) with respect to the requested variable and mode" % (d_, v_), l_)
+        elif npair:
+            chk.ok(RID, "operands are paired with their own recursive derivative", "%d aggregate(s)" % npair, loc(ib0["span"]))
+        else:
+            chk.unrecognised(RID, "operand-derivative", "no (value, derivative) pair built in partial_derivative_inner", loc(ib0["span"]))
+
+
+
 def run(ctx):
     chk, fb = ctx.check, ctx.fb
     chk.rule("R05.1", "unary rule term D(u, k(u)) == d k(u)/du (CAS)")
@@ -207,6 +259,8 @@ def run(ctx):
             chk.violation("R05.6", "name:%s:%s/%d" % (fac, nm, ar), "a derivative rule emits operator %r with arity %d, which %s does not define: differentiation would fail at run time" % (nm, ar, fac), loc(mk["span"]))
     chk.ok("R05.6", "emitted operator names", str(sorted(emitted)))
     chk.floor("R05.6", "emitted names", len(emitted), 10)
+
+    operand_pairs(chk, fb, "R05.8")
 
     # ---- R05.7 parallel lists (names / functions) of a unary composition
     from analysis import dom as _dom
